@@ -11,7 +11,27 @@
 //!             a r v  explicit group written as [[rssl::bind_group(G)]] / register(.., spaceG) / [[vk::binding(N, G)]]
 //!             i<N>   explicit language-level slot index (register(tN) / vk::binding(N)): API slots ignore it
 //!             b      [[rssl::bindless]]          n  declared inside `namespace NS { }`
-//!             j      written as a further declarator of the previous declaration (`T a, b[2];`)
+//!             j      written as a further declarator of the previous declaration (`T a, b[2];`). The attributes
+//!                    (a / v / the attribute half of o / w / b), the namespace, the type and `static` belong to the
+//!                    DECLARATION and are those of its first declarator; everything else is per declarator: for a `j`
+//!                    entry `<set>` is the space of its OWN `register(.., space<set>)` (flag `r` implied), `i<N>` its
+//!                    own register index, `<ss>` its own `= StaticSampler {..}` initialiser, `<len>`/z/m its own array
+//!                    shape. The explicit group of a declarator = the declaration's attribute group, else its own
+//!                    register space, else none (-> the pipeline's default group).
+//!             R<i|->_<g|->  one more `: register(<class><i>, space<g>)` annotation on this declarator, after the
+//!                    first one (repeated annotations are accepted when they all say the same, rejected otherwise)
+//!             Y      one more annotation that is a semantic (`: TEXCOORD`): rejected on a global
+//!             k      the register index is written with the register class of another kind (`register(u3)` on a
+//!                    texture): rejected
+//!             w<G>   a further `[[rssl::bind_group(G)]]` written BEFORE the other attributes of the declaration
+//!                    (the later attribute wins)
+//!             E      the first storage keyword of the declaration is written twice (`extern extern`): accepted
+//!             A<n>   an ill-formed attribute in front of all others (n = 0..11: no / too many arguments, unknown leaf,
+//!                    unknown namespace, a single name, an argument that is no u32 constant; `BAD_ATTRS`): rejected
+//!             e      the keyword `extern` is written (the default storage class; after `static`/`groupshared`: rejected)
+//!             G      (with s) the static storage is spelled `groupshared`
+//!             q      (with s) this declarator has a `= StaticSampler {..}` initialiser: rejected
+//!             b on a cbuffer: rejected (a block cannot be bindless)
 //!             s      `static` storage (lives in the shader: no slot)
 //!             z      unsized array `name[]` (the allocator ignores unsized arrays; the property excludes them)
 //!             m      two-dimensional array `name[len][2]` (the allocator peels one array layer and ignores it;
@@ -20,12 +40,21 @@
 //! observe : `ok:` + per returned pipeline `{group / group / ...}` joined by ` ## `; group = bindings `;`-joined
 //!           then `|` and the inline block `location,size` or `-`; binding = `name,(i<index>|n<offset>),(count|*)`
 //!           | `err:none` | `err:unknown:<name>` | `err:bind-group:<n>` | `err:other:<text>` | `panic:<site>`
+//!           | `err:decl:<class>:<name>` the type checker rejects the binding annotation of declarator <name>
+//!             (class = register | register-type-<used>-<expected> | static-sampler-index | register-here | semantic
+//!             | static-sampler-storage | attribute-count | attribute-unknown | attribute-not-constant |
+//!             modifier-conflict; <name> = the identifier the reported location points at)
 //! oracle  : the property's own words on the real metadata of every returned pipeline (independent of the model):
 //!           in each group exactly the bound declarations of the group are reported, their index ranges tile from 0 in
 //!           declaration order (entries are matched by name, not by position in the metadata vector) with the
 //!           length the kind and array length need on the target, buffer addresses take 8 bytes each at
 //!           consecutive offsets of one inline block whose slot follows all index slots and whose size is their
 //!           sum, ungrouped resources are in the default group of THIS pipeline (0 in no-pipeline mode).
+//!           All of it is evaluated PER DECLARATOR: the explicit groups a declarator can be in are the ones written
+//!           in the attributes of its declaration and in its own register annotations; a declarator with neither
+//!           must be in the default group whatever its neighbours in the same declaration say. A program whose
+//!           every declarator carries at most one distinct register annotation of the right class (and no index on
+//!           a static sampler) must not be rejected because of its binding annotations.
 use super::{is_resource, parse_decl, show_decl, spelling, Decl, DOUBLED, KINDS};
 use crate::compile_util::{Mode, Tgt, ALL_TARGETS};
 use crate::util::*;
@@ -51,6 +80,46 @@ pub struct Res {
     /// two-dimensional array `name[len][2]`: the allocator peels one array layer only and then sees no object
     pub dim2: bool,
     pub joined: bool,
+    /// further annotations on this declarator, after the first register annotation
+    pub extra: Vec<Ann>,
+    /// a further `[[rssl::bind_group(G)]]` before the other attributes of the declaration
+    pub pre_group: Option<u32>,
+    /// the register index is spelled with the register class of another kind
+    pub wrong_class: bool,
+    /// an ill-formed attribute (code 0-9, see `BAD_ATTRS`) in front of the other attributes of the declaration
+    pub bad_attr: Option<u32>,
+    /// the keyword `extern` is written (after `static` / `groupshared` if the declaration has one: a conflict)
+    pub extern_kw: bool,
+    /// a static-storage declaration written with `groupshared` instead of `static`
+    pub groupshared: bool,
+    /// a declarator of a static-storage declaration with a `= StaticSampler {..}` initialiser: rejected
+    pub static_ss: bool,
+    /// the (first) storage keyword is written twice (`static static`, `extern extern`): accepted
+    pub dup_kw: bool,
+}
+
+/// ill-formed attributes: (source text, what the type checker names in its message)
+pub const BAD_ATTRS: &[(&str, &str)] = &[
+    ("rssl::bind_group", "bind_group"),
+    ("rssl::bind_group(1, 2)", "bind_group"),
+    ("rssl::bindless(1)", "bindless"),
+    ("rssl::nope", "nope"),
+    ("vk::binding", "binding"),
+    ("vk::binding(1, 2, 3)", "binding"),
+    ("vk::nope", "nope"),
+    ("other::thing", "other"),
+    ("single", "single"),
+    ("rssl::bind_group(-1)", ""),
+    ("rssl::bind_group(WaveGetLaneCount())", "WaveGetLaneCount"),
+    ("vk::binding(0, 4294967296)", "4294967296"),
+];
+
+#[derive(Clone, Copy, Debug, PartialEq)]
+pub enum Ann {
+    /// `: register(<class><index>, space<space>)` (at least one of the two)
+    Reg(Option<u32>, Option<u32>),
+    /// `: TEXCOORD`
+    Semantic,
 }
 
 #[derive(Clone, Debug, PartialEq)]
@@ -71,6 +140,22 @@ pub struct Prog {
 
 // ---------------------------------------------------------------------------------------------- request text
 
+fn res_set(r: &Res) -> Option<u32> {
+    match &r.decl {
+        Decl::Other => None,
+        Decl::CBuffer(s) => *s,
+        Decl::Global { set, .. } | Decl::StaticObject { set, .. } => *set,
+    }
+}
+
+fn show_ann(a: &Ann) -> String {
+    let on = |o: &Option<u32>| o.map(|v| v.to_string()).unwrap_or_else(|| "-".into());
+    match a {
+        Ann::Reg(i, g) => format!("R{}_{}", on(i), on(g)),
+        Ann::Semantic => "Y".into(),
+    }
+}
+
 fn show_res(r: &Res) -> String {
     let mut flags: Vec<String> = Vec::new();
     let (decl_text, is_static) = match &r.decl {
@@ -80,21 +165,30 @@ fn show_res(r: &Res) -> String {
         ),
         d => (show_decl(d), false),
     };
-    let has_set = match &r.decl {
-        Decl::Other => false,
-        Decl::CBuffer(s) => s.is_some(),
-        Decl::Global { set, .. } | Decl::StaticObject { set, .. } => set.is_some(),
-    };
-    if has_set || r.lang_index.is_some() {
-        flags.push(match r.how { How::Attr => "a", How::Space => "r", How::VkBinding => "v", How::Override => "o" }.to_string());
+    if res_set(r).is_some() || r.lang_index.is_some() {
+        let how = if r.joined { How::Space } else { r.how };
+        flags.push(match how { How::Attr => "a", How::Space => "r", How::VkBinding => "v", How::Override => "o" }.to_string());
     }
     if let Some(i) = r.lang_index {
         flags.push(format!("i{}", i));
     }
-    if r.bindless { flags.push("b".into()); }
-    if r.ns { flags.push("n".into()); }
+    if r.wrong_class { flags.push("k".into()); }
+    for a in &r.extra {
+        flags.push(show_ann(a));
+    }
+    if !r.joined {
+        // declaration-level: a further declarator has what the first one has
+        if let Some(g) = r.pre_group { flags.push(format!("w{}", g)); }
+        if let Some(n) = r.bad_attr { flags.push(format!("A{}", n)); }
+        if r.bindless { flags.push("b".into()); }
+        if r.ns { flags.push("n".into()); }
+        if r.extern_kw { flags.push("e".into()); }
+        if r.dup_kw { flags.push("E".into()); }
+    }
     if r.joined { flags.push("j".into()); }
     if is_static { flags.push("s".into()); }
+    if is_static && r.groupshared { flags.push("G".into()); }
+    if is_static && r.static_ss { flags.push("q".into()); }
     if r.unsized_arr { flags.push("z".into()); }
     if r.dim2 { flags.push("m".into()); }
     format!("{}={}~{}", r.name, decl_text, flags.join("."))
@@ -114,7 +208,16 @@ fn parse_res(s: &str) -> Option<Res> {
         unsized_arr: false,
         dim2: false,
         joined: false,
+        extra: Vec::new(),
+        pre_group: None,
+        wrong_class: false,
+        bad_attr: None,
+        extern_kw: false,
+        groupshared: false,
+        static_ss: false,
+        dup_kw: false,
     };
+    let on = |t: &str| -> Option<Option<u32>> { if t == "-" { Some(None) } else { t.parse().ok().map(Some) } };
     for f in flags.split('.').filter(|f| !f.is_empty()) {
         match f {
             "a" => r.how = How::Attr,
@@ -126,6 +229,12 @@ fn parse_res(s: &str) -> Option<Res> {
             "n" => r.ns = true,
             "j" => r.joined = true,
             "z" => r.unsized_arr = true,
+            "k" => r.wrong_class = true,
+            "e" => r.extern_kw = true,
+            "E" => r.dup_kw = true,
+            "G" => r.groupshared = true,
+            "q" => r.static_ss = true,
+            "Y" => r.extra.push(Ann::Semantic),
             "s" => {
                 decl = match decl {
                     Decl::Global { set, ss: false, kind: Some(kind), len } => Decl::StaticObject { set, kind, len },
@@ -133,11 +242,75 @@ fn parse_res(s: &str) -> Option<Res> {
                 }
             }
             f if f.starts_with('i') => r.lang_index = Some(f[1..].parse().ok()?),
+            f if f.starts_with('w') => r.pre_group = Some(f[1..].parse().ok()?),
+            f if f.starts_with('A') => r.bad_attr = Some(f[1..].parse().ok().filter(|n| (*n as usize) < BAD_ATTRS.len())?),
+            f if f.starts_with('R') => {
+                let (i, g) = f[1..].split_once('_')?;
+                let (i, g) = (on(i)?, on(g)?);
+                if i.is_none() && g.is_none() {
+                    return None;
+                }
+                r.extra.push(Ann::Reg(i, g));
+            }
             _ => return None,
         }
     }
     r.decl = decl;
     Some(r)
+}
+
+/// (object kind, static storage) of a declaration that can have several declarators
+fn base_of(r: &Res) -> Option<(&'static str, bool)> {
+    match &r.decl {
+        Decl::Global { kind: Some(k), .. } => Some((*k, false)),
+        Decl::StaticObject { kind, .. } => Some((*kind, true)),
+        _ => None,
+    }
+}
+
+/// index of the first declarator of the declaration that entry `i` is written in
+pub fn head_of(res: &[Res], i: usize) -> usize {
+    let mut h = i;
+    while h > 0 && res[h].joined {
+        h -= 1;
+    }
+    h
+}
+
+/// Make the entries say what the rendered source says: a `j` entry that cannot be a further declarator (different
+/// type or storage, nothing before it) starts its own declaration; a further declarator has the declaration-level
+/// facts of the first one and spells a group of its own only as a register space.
+pub fn normalise(res: &mut [Res]) {
+    for i in 0..res.len() {
+        if !res[i].joined {
+            continue;
+        }
+        if i == 0 || base_of(&res[i]).is_none() || base_of(&res[i]) != base_of(&res[head_of(res, i - 1)]) {
+            res[i].joined = false;
+            continue;
+        }
+        let h = head_of(res, i - 1);
+        res[i].how = How::Space;
+        res[i].pre_group = None;
+        res[i].bad_attr = None;
+        res[i].ns = res[h].ns;
+        res[i].bindless = res[h].bindless;
+        res[i].extern_kw = res[h].extern_kw;
+        res[i].groupshared = res[h].groupshared;
+        res[i].dup_kw = res[h].dup_kw;
+    }
+    for r in res.iter_mut() {
+        if !matches!(&r.decl, Decl::StaticObject { .. }) {
+            r.groupshared = false;
+            r.static_ss = false;
+        }
+        if base_of(r).is_none() {
+            r.extern_kw = false;
+        }
+        if !r.extern_kw && !matches!(&r.decl, Decl::StaticObject { .. }) {
+            r.dup_kw = false;
+        }
+    }
 }
 
 fn show_pipe(p: &Pipe) -> String {
@@ -199,11 +372,12 @@ pub fn parse_request(f: &[&str]) -> Option<(Tgt, Mode, Prog)> {
     } else {
         f[3].split(';').map(parse_pipe).collect::<Option<Vec<_>>>()?
     };
-    let res = if f[4].is_empty() {
+    let mut res = if f[4].is_empty() {
         Vec::new()
     } else {
         f[4].split(';').map(parse_res).collect::<Option<Vec<_>>>()?
     };
+    normalise(&mut res);
     Some((tgt, mode, Prog { res, pipes }))
 }
 
@@ -221,64 +395,97 @@ fn reg_class(kind: &str) -> char {
     }
 }
 
-/// (attributes written before the declaration, annotation written after the declarator)
-fn binding_text(r: &Res, set: Option<u32>, class: Option<char>) -> (String, String) {
-    let mut before = String::new();
-    let mut after = String::new();
-    match (r.how, class) {
-        (How::VkBinding, _) if set.is_some() || r.lang_index.is_some() => {
-            let i = r.lang_index.unwrap_or(0);
-            match set {
-                Some(g) => before.push_str(&format!("[[vk::binding({}, {})]] ", i, g)),
-                None => before.push_str(&format!("[[vk::binding({})]] ", i)),
-            }
-        }
-        (How::Override, Some(c)) if set.is_some() => {
-            let g = set.unwrap();
-            before.push_str(&format!("[[rssl::bind_group({})]] ", g));
-            after = match r.lang_index {
-                Some(i) => format!(" : register({}{}, space{})", c, i, g + 1),
-                None => format!(" : register(space{})", g + 1),
-            };
-        }
-        (How::Space, Some(c)) if set.is_some() || r.lang_index.is_some() => {
-            after = match (r.lang_index, set) {
-                (Some(i), Some(g)) => format!(" : register({}{}, space{})", c, i, g),
-                (Some(i), None) => format!(" : register({}{})", c, i),
-                (None, Some(g)) => format!(" : register(space{})", g),
-                (None, None) => String::new(),
-            };
-        }
-        _ => {
-            if let Some(g) = set {
-                before.push_str(&format!("[[rssl::bind_group({})]] ", g));
-            }
-            if let (Some(i), Some(c)) = (r.lang_index, class) {
-                after = format!(" : register({}{})", c, i);
-            }
-        }
-    }
-    if r.bindless {
-        before = format!("[[rssl::bindless]] {}", before);
-    }
-    (before, after)
+#[derive(Clone, Copy, Debug, PartialEq)]
+pub enum AttrText {
+    BindGroup(u32),
+    VkBinding(u32, Option<u32>),
+    Bindless,
 }
 
-fn can_join(prev: &Res, cur: &Res) -> bool {
-    let base = |r: &Res| match &r.decl {
-        Decl::Global { set, ss: false, kind: Some(k), .. } => Some((*set, *k, false)),
-        Decl::StaticObject { set, kind, .. } => Some((*set, *kind, true)),
-        _ => None,
-    };
-    cur.joined
-        && base(prev).is_some()
-        && base(prev) == base(cur)
-        && prev.how == cur.how
-        && prev.lang_index.is_none()
-        && cur.lang_index.is_none()
-        && prev.bindless == cur.bindless
-        && prev.ns == cur.ns
-        && !(matches!(prev.how, How::Space | How::Override) && base(prev).unwrap().0.is_some())
+/// the attributes written in front of the declaration whose first declarator is `h`, in source order
+pub fn decl_attrs(h: &Res) -> Vec<AttrText> {
+    let mut v = Vec::new();
+    if h.bindless {
+        v.push(AttrText::Bindless);
+    }
+    if let Some(g) = h.pre_group {
+        v.push(AttrText::BindGroup(g));
+    }
+    let set = res_set(h);
+    let object = !matches!(&h.decl, Decl::Global { kind: None, .. } | Decl::Other);
+    match h.how {
+        How::VkBinding if object && (set.is_some() || h.lang_index.is_some()) => {
+            v.push(AttrText::VkBinding(h.lang_index.unwrap_or(0), set))
+        }
+        How::Space if object => {}
+        _ => {
+            if let Some(g) = set {
+                v.push(AttrText::BindGroup(g));
+            }
+        }
+    }
+    v
+}
+
+/// the annotations written after declarator `r` in source order, each with "spelled with a wrong register class"
+pub fn own_anns(r: &Res) -> Vec<(Ann, bool)> {
+    let mut v = Vec::new();
+    let set = res_set(r);
+    let object = !matches!(&r.decl, Decl::Global { kind: None, .. } | Decl::Other);
+    let how = if r.joined { How::Space } else { r.how };
+    if object {
+        match how {
+            How::Space => {
+                if set.is_some() || r.lang_index.is_some() {
+                    v.push((Ann::Reg(r.lang_index, set), r.wrong_class && r.lang_index.is_some()));
+                }
+            }
+            How::Override if set.is_some() => {
+                v.push((Ann::Reg(r.lang_index, Some(set.unwrap() + 1)), r.wrong_class && r.lang_index.is_some()))
+            }
+            How::VkBinding if set.is_some() || r.lang_index.is_some() => {}
+            _ => {
+                if r.lang_index.is_some() {
+                    v.push((Ann::Reg(r.lang_index, None), r.wrong_class));
+                }
+            }
+        }
+    }
+    for a in &r.extra {
+        v.push((*a, false));
+    }
+    v
+}
+
+fn attrs_text(h: &Res) -> String {
+    let mut s = String::new();
+    if let Some(n) = h.bad_attr {
+        s.push_str(&format!("[[{}]] ", BAD_ATTRS[n as usize].0));
+    }
+    for a in decl_attrs(h) {
+        match a {
+            AttrText::Bindless => s.push_str("[[rssl::bindless]] "),
+            AttrText::BindGroup(g) => s.push_str(&format!("[[rssl::bind_group({})]] ", g)),
+            AttrText::VkBinding(i, Some(g)) => s.push_str(&format!("[[vk::binding({}, {})]] ", i, g)),
+            AttrText::VkBinding(i, None) => s.push_str(&format!("[[vk::binding({})]] ", i)),
+        }
+    }
+    s
+}
+
+fn anns_text(r: &Res, class: char) -> String {
+    let mut s = String::new();
+    for (a, wrong) in own_anns(r) {
+        let c = if wrong { if class == 't' { 'u' } else { 't' } } else { class };
+        match a {
+            Ann::Reg(Some(i), Some(g)) => s.push_str(&format!(" : register({}{}, space{})", c, i, g)),
+            Ann::Reg(Some(i), None) => s.push_str(&format!(" : register({}{})", c, i)),
+            Ann::Reg(None, Some(g)) => s.push_str(&format!(" : register(space{})", g)),
+            Ann::Reg(None, None) => {}
+            Ann::Semantic => s.push_str(" : TEXCOORD"),
+        }
+    }
+    s
 }
 
 fn declarator(r: &Res, len: Option<u32>) -> String {
@@ -294,6 +501,20 @@ fn declarator(r: &Res, len: Option<u32>) -> String {
     s
 }
 
+/// `name[dims] : annotations = initialiser` of one declarator of an object-typed declaration
+fn init_declarator(r: &Res) -> String {
+    let (kind, len, ss) = match &r.decl {
+        Decl::Global { kind: Some(k), len, ss, .. } => (*k, *len, *ss),
+        Decl::StaticObject { kind, len, .. } => (*kind, *len, false),
+        _ => return r.name.clone(),
+    };
+    let mut s = format!("{}{}", declarator(r, len), anns_text(r, reg_class(kind)));
+    if ss || r.static_ss {
+        s.push_str(" = StaticSampler { Filter = MIN_MAG_MIP_LINEAR; }");
+    }
+    s
+}
+
 pub fn source(p: &Prog) -> String {
     let mut s = String::from("struct CbS { float4 v; };\n");
     let mut i = 0;
@@ -303,49 +524,34 @@ pub fn source(p: &Prog) -> String {
         let mut consumed = 1;
         match &r.decl {
             Decl::Other => line.push_str(&format!("struct {} {{ int x; }};", r.name)),
-            Decl::CBuffer(set) => {
-                let (before, after) = binding_text(r, *set, Some('b'));
+            Decl::CBuffer(_) => {
                 // one to three members: members are not root definitions and take nothing
                 let extra = ["", " float2 pad_a[2];", " float2 pad_a[2]; uint pad_b;"][(r.name.bytes().last().unwrap_or(0) % 3) as usize];
-                line.push_str(&format!("{}cbuffer {}{} {{ float4 {}_v;{} }}", before, r.name, after, r.name, extra).replace("pad_", &format!("{}_pad_", r.name)));
+                line.push_str(
+                    &format!("{}cbuffer {}{} {{ float4 {}_v;{} }}", attrs_text(r), r.name, anns_text(r, 'b'), r.name, extra)
+                        .replace("pad_", &format!("{}_pad_", r.name)),
+                );
             }
-            Decl::Global { set, kind: None, len, .. } => {
+            Decl::Global { kind: None, len, .. } => {
                 // a global that is not an object: only the attribute form of a group is accepted on it
-                if let Some(g) = set {
-                    line.push_str(&format!("[[rssl::bind_group({})]] ", g));
-                }
+                line.push_str(&attrs_text(r));
                 line.push_str(&format!("static const int {}", r.name));
                 match len {
                     Some(n) => {
                         let items: Vec<String> = (0..*n).map(|x| x.to_string()).collect();
-                        line.push_str(&format!("[{}] = {{ {} }};", n, items.join(", ")));
+                        line.push_str(&format!("[{}]{} = {{ {} }};", n, anns_text(r, 't'), items.join(", ")));
                     }
-                    None => line.push_str(" = 1;"),
+                    None => line.push_str(&format!("{} = 1;", anns_text(r, 't'))),
                 }
             }
-            Decl::Global { set, ss, kind: Some(k), len } => {
-                let ty = spelling(k);
-                let (before, after) = binding_text(r, *set, Some(reg_class(k)));
-                line.push_str(&format!("{}{} {}{}", before, ty, declarator(r, *len), after));
-                if *ss {
-                    line.push_str(" = StaticSampler { Filter = MIN_MAG_MIP_LINEAR; }");
-                }
-                while i + consumed < p.res.len() && can_join(&p.res[i + consumed - 1], &p.res[i + consumed]) {
-                    let n = &p.res[i + consumed];
-                    let nl = match &n.decl { Decl::Global { len, .. } => *len, _ => None };
-                    line.push_str(&format!(", {}", declarator(n, nl)));
-                    consumed += 1;
-                }
-                line.push(';');
-            }
-            Decl::StaticObject { set, kind, len } => {
-                let ty = spelling(kind);
-                let (before, after) = binding_text(r, *set, Some(reg_class(kind)));
-                line.push_str(&format!("{}static {} {}{}", before, ty, declarator(r, *len), after));
-                while i + consumed < p.res.len() && can_join(&p.res[i + consumed - 1], &p.res[i + consumed]) {
-                    let n = &p.res[i + consumed];
-                    let nl = match &n.decl { Decl::StaticObject { len, .. } => *len, _ => None };
-                    line.push_str(&format!(", {}", declarator(n, nl)));
+            Decl::Global { kind: Some(k), .. } | Decl::StaticObject { kind: k, .. } => {
+                let is_static = matches!(&r.decl, Decl::StaticObject { .. });
+                let first = if !is_static { "" } else if r.groupshared { "groupshared " } else { "static " };
+                let second = if r.extern_kw { "extern " } else { "" };
+                let storage = format!("{}{}{}", if r.dup_kw { if is_static { first } else { second } } else { "" }, first, second);
+                line.push_str(&format!("{}{}{} {}", attrs_text(r), storage, spelling(k), init_declarator(r)));
+                while i + consumed < p.res.len() && p.res[i + consumed].joined {
+                    line.push_str(&format!(", {}", init_declarator(&p.res[i + consumed])));
                     consumed += 1;
                 }
                 line.push(';');
@@ -512,6 +718,45 @@ fn show_group(g: &MetaGroup) -> String {
     )
 }
 
+/// `main.rssl:<line>:<col>: error: <message>\n<source line>\n<caret>` of a rejected binding annotation ->
+/// `err:decl:<class>:<name of the declarator the location points at>`
+fn decl_error(e: &str) -> Option<String> {
+    let mut lines = e.lines();
+    let first = lines.next()?;
+    let src = lines.next()?;
+    let mut it = first.strip_prefix("main.rssl:")?.splitn(3, ':');
+    let _line = it.next()?;
+    let col: usize = it.next()?.parse().ok()?;
+    let msg = it.next()?.trim().strip_prefix("error: ")?;
+    let class = if msg.starts_with("register() is not allowed on ") {
+        "register".to_string()
+    } else if let Some(x) = msg.strip_prefix("invalid register type '") {
+        let used = x.chars().next()?;
+        let expected = x.strip_suffix('\'')?.chars().last()?;
+        format!("register-type-{}-{}", used, expected)
+    } else if msg == "static sampler has unexpected binding index" {
+        "static-sampler-index".to_string()
+    } else if msg == "register() is not allowed here" {
+        "register-here".to_string()
+    } else if msg == "semantic is not allowed here" {
+        "semantic".to_string()
+    } else if msg == "static sampler has unexpected storage class" {
+        "static-sampler-storage".to_string()
+    } else if msg.starts_with("unexpected number of arguments to global variable attribute '") {
+        "attribute-count".to_string()
+    } else if msg.starts_with("unknown global variable attribute '") {
+        "attribute-unknown".to_string()
+    } else if msg == "expression could not be evaluated as a constant expression" {
+        "attribute-not-constant".to_string()
+    } else if msg.starts_with("modifier '") && msg.contains("' may not be used with '") {
+        "modifier-conflict".to_string()
+    } else {
+        return None;
+    };
+    let name: String = src.chars().skip(col.checked_sub(1)?).take_while(|c| c.is_ascii_alphanumeric() || *c == '_').collect();
+    Some(format!("err:decl:{}:{}", class, name))
+}
+
 pub fn show_outcome(o: &Outcome) -> String {
     match o {
         Outcome::Ok(ps) => {
@@ -531,6 +776,8 @@ pub fn show_outcome(o: &Outcome) -> String {
             } else if let Some(k) = e.find("UnsupportedBindGroupIndex(") {
                 let rest = &e[k + "UnsupportedBindGroupIndex(".len()..];
                 format!("err:bind-group:{}", rest.split(')').next().unwrap_or("?"))
+            } else if let Some(d) = decl_error(e) {
+                d
             } else {
                 format!("err:other:{}", one_line(&e.chars().take(160).collect::<String>()))
             }
@@ -541,37 +788,72 @@ pub fn show_outcome(o: &Outcome) -> String {
 
 // ---------------------------------------------------------------------------------------------- the oracle
 
-/// What the property demands of one declaration on one target: `None` = takes nothing;
-/// `Some((group, inline, amount, reported count))`.
-fn demand(r: &Res, tgt: Tgt, dflt: u32) -> Option<(u32, bool, u32, u32)> {
+/// What the property demands of one declarator on one target: `None` = takes nothing;
+/// `Some((inline, amount, reported count))`. The group is a separate question (`explicit_groups`).
+fn demand(r: &Res, tgt: Tgt) -> Option<(bool, u32, u32)> {
     let metal = tgt == Tgt::Msl;
     match &r.decl {
         Decl::Other | Decl::StaticObject { .. } => None,
-        Decl::CBuffer(s) => Some((s.unwrap_or(dflt), false, 1, 1)),
+        Decl::CBuffer(_) => Some((false, 1, 1)),
         Decl::Global { kind: None, .. } => None,
         Decl::Global { ss: true, .. } if metal => None,
         // not a resource (RayDesc, RayQuery, TriangleStream): takes nothing (only reachable through hand-written request
         // lines: the generator does not emit them because the HLSL exporter rejects such a global)
         Decl::Global { kind: Some(k), .. } if !is_resource(k) => None,
-        Decl::Global { set, kind: Some(k), len, .. } => {
-            let g = set.unwrap_or(dflt);
+        Decl::Global { kind: Some(k), len, .. } => {
             let is_ba = *k == "BufferAddress" || *k == "RWBufferAddress";
             if tgt == Tgt::VkBa && is_ba && len.is_none() {
-                Some((g, true, 8, 1))
+                Some((true, 8, 1))
             } else {
                 let per = if metal && DOUBLED.contains(k) { 2 } else { 1 };
-                Some((g, false, len.unwrap_or(1) * per, len.unwrap_or(1)))
+                Some((false, len.unwrap_or(1) * per, len.unwrap_or(1)))
             }
         }
     }
 }
 
-fn explicit_set(r: &Res) -> Option<u32> {
-    match &r.decl {
-        Decl::CBuffer(s) => *s,
-        Decl::Global { set, .. } | Decl::StaticObject { set, .. } => *set,
-        Decl::Other => None,
+/// Every explicit group the source spells for declarator `i`: the groups in the attributes of ITS declaration and
+/// the spaces of ITS OWN register annotations -- nothing of the other declarators of the same declaration.
+pub fn explicit_groups(res: &[Res], i: usize) -> Vec<u32> {
+    let mut v = Vec::new();
+    for a in decl_attrs(&res[head_of(res, i)]) {
+        match a {
+            AttrText::BindGroup(g) | AttrText::VkBinding(_, Some(g)) => v.push(g),
+            _ => {}
+        }
     }
+    for (a, _) in own_anns(&res[i]) {
+        if let Ann::Reg(_, Some(g)) = a {
+            v.push(g);
+        }
+    }
+    v
+}
+
+/// Does some declarator carry a binding annotation the language rejects? (a semantic; a register on something that
+/// is not a resource; a register class of another kind; two register annotations that differ; a binding index --
+/// its own or the declaration's `vk::binding` -- on a static sampler; an ill-formed attribute; `bindless` on a
+/// cbuffer; `extern` together with `static`/`groupshared`; a static sampler with static storage)
+pub fn invalid_annotation(res: &[Res]) -> bool {
+    (0..res.len()).any(|i| {
+        let r = &res[i];
+        let anns = own_anns(r);
+        let regs: Vec<(Option<u32>, Option<u32>)> =
+            anns.iter().filter_map(|(a, _)| if let Ann::Reg(x, g) = a { Some((*x, *g)) } else { None }).collect();
+        let resource = match &r.decl {
+            Decl::CBuffer(_) | Decl::StaticObject { .. } => true,
+            Decl::Global { kind: Some(k), .. } => is_resource(k),
+            _ => false,
+        };
+        let attr_index = decl_attrs(&res[head_of(res, i)]).iter().any(|a| matches!(a, AttrText::VkBinding(..)));
+        (!r.joined && r.bad_attr.is_some() && !matches!(&r.decl, Decl::Other))
+            || (matches!(&r.decl, Decl::CBuffer(_)) && r.bindless)
+            || (matches!(&r.decl, Decl::StaticObject { .. }) && (r.extern_kw || r.static_ss))
+            || anns.iter().any(|(a, wrong)| *a == Ann::Semantic || *wrong)
+            || (!regs.is_empty() && !resource)
+            || regs.windows(2).any(|w| w[0] != w[1])
+            || (matches!(&r.decl, Decl::Global { ss: true, .. }) && (attr_index || regs.iter().any(|x| x.0.is_some())))
+    })
 }
 
 fn oracle_pipeline(p: &Prog, tgt: Tgt, dflt: u32, groups: &[MetaGroup]) -> Result<(), String> {
@@ -581,19 +863,23 @@ fn oracle_pipeline(p: &Prog, tgt: Tgt, dflt: u32, groups: &[MetaGroup]) -> Resul
     let mut want: BTreeMap<u32, Vec<(String, bool, u32, u32)>> = BTreeMap::new();
     let mut next_index: BTreeMap<u32, u32> = BTreeMap::new();
     let mut next_inline: BTreeMap<u32, u32> = BTreeMap::new();
-    for r in &p.res {
+    for (i, r) in p.res.iter().enumerate() {
         if r.unsized_arr || r.dim2 {
             continue;
         }
-        if let Some((mut g, inline, amount, count)) = demand(r, tgt, dflt) {
-            // two explicit groups on one declaration (attribute G and register space G+1): the property does not say
-            // which explicit group wins, so either is accepted here (the model pins what the code does)
-            if r.how == How::Override
-                && groups.get(g as usize + 1).is_some_and(|x| x.bindings.iter().any(|b| b.name == r.name))
-                && explicit_set(r).is_some()
-            {
-                g += 1;
-            }
+        if let Some((inline, amount, count)) = demand(r, tgt) {
+            // no explicit group on THIS declarator: the default group of this pipeline. Several explicit groups on
+            // one declarator (say an attribute and a register space): the property does not say which explicit
+            // group wins, so the one it is reported in is accepted (the model pins what the code does)
+            let explicit = explicit_groups(&p.res, i);
+            let g = match explicit.first() {
+                None => dflt,
+                Some(first) => explicit
+                    .iter()
+                    .copied()
+                    .find(|c| groups.get(*c as usize).is_some_and(|x| x.bindings.iter().any(|b| b.name == r.name)))
+                    .unwrap_or(*first),
+            };
             let ctr = if inline { next_inline.entry(g).or_insert(0) } else { next_index.entry(g).or_insert(0) };
             want.entry(g).or_default().push((r.name.clone(), inline, *ctr, count));
             *ctr += amount;
@@ -644,7 +930,10 @@ fn oracle_pipeline(p: &Prog, tgt: Tgt, dflt: u32, groups: &[MetaGroup]) -> Resul
             }
         }
         if let Some(extra) = got.bindings.iter().find(|b| !w.iter().any(|wb| wb.0 == b.name)) {
-            return Err(format!("group {} reports {} which takes no slot there", g, extra.name));
+            return Err(match want.iter().find(|(_, v)| v.iter().any(|wb| wb.0 == extra.name)) {
+                Some((home, _)) => format!("{} belongs to group {} of this pipeline but is reported in group {}", extra.name, home, g),
+                None => format!("group {} reports {} which takes no slot there", g, extra.name),
+            });
         }
         let want_block = next_inline.get(&g).map(|size| (*next_index.get(&g).unwrap_or(&0), *size));
         if got.inline_block != want_block {
@@ -691,11 +980,26 @@ fn oracle(p: &Prog, tgt: Tgt, mode: &Mode, o: &Outcome) -> String {
                         && shown.strip_prefix("err:bind-group:").and_then(|n| n.parse::<u32>().ok()).is_some_and(|n| {
                             n >= 4
                                 && dflts.iter().any(|d| {
-                                    p.res.iter().any(|r| !r.unsized_arr && !r.dim2 && demand(r, tgt, *d).is_some_and(|w| w.0 == n))
+                                    p.res.iter().enumerate().any(|(i, r)| {
+                                        let explicit = explicit_groups(&p.res, i);
+                                        !r.unsized_arr
+                                            && !r.dim2
+                                            && demand(r, tgt).is_some()
+                                            && (explicit.contains(&n) || (explicit.is_empty() && *d == n))
+                                    })
                                 })
                         }) =>
                 {
                     "ok".into()
+                }
+                // a binding annotation is rejected: fine when one of them is not well formed, a failure when every
+                // declarator's annotations are (what one declarator says must not make another one's invalid)
+                _ if shown.starts_with("err:decl:") => {
+                    if invalid_annotation(&p.res) {
+                        "ok".into()
+                    } else {
+                        format!("FAIL:every binding annotation is well formed but the program is rejected: {}", shown)
+                    }
                 }
                 // unsized resource arrays are outside the property and not implemented for Metal: a clean error
                 _ if tgt == Tgt::Msl && shown == "err:unbounded-array" && p.res.iter().any(|r| r.unsized_arr) => "ok".into(),
@@ -738,42 +1042,154 @@ pub fn run_case(tgt: Tgt, mode: &Mode, p: &Prog, out: &mut Out, hist: &mut Hist)
 
 // ---------------------------------------------------------------------------------------------- generator
 
-fn gen_res(rng: &mut Rng, i: usize, prev: Option<&Res>) -> Res {
-    let set = match rng.below(8) {
+fn small_group(rng: &mut Rng) -> Option<u32> {
+    match rng.below(8) {
         0..=3 => None,
         4 => Some(0),
         5 => Some(1),
         6 => Some(rng.range(2, 3) as u32),
         _ => Some(rng.range(0, 5) as u32),
+    }
+}
+
+const SAMPLERS: &[&str] = &["SamplerState", "SamplerComparisonState"];
+const UNSIZED_OK: &[&str] = &["Texture2D", "StructuredBuffer", "RWTexture2D"];
+
+/// now and then something the type checker must reject (or, for an agreeing repetition, accept)
+fn gen_extra(rng: &mut Rng, r: &mut Res) {
+    let object = !matches!(&r.decl, Decl::Global { kind: None, .. } | Decl::Other);
+    let first = own_anns(r).first().map(|x| x.0);
+    match rng.below(90) {
+        // the same register annotation once more: accepted
+        0..=3 => {
+            if let Some(Ann::Reg(i, g)) = first {
+                r.extra.push(Ann::Reg(i, g));
+                if rng.chance(1, 4) {
+                    r.extra.push(Ann::Reg(i, g));
+                }
+            } else if object {
+                let g = rng.below(4) as u32;
+                r.extra.push(Ann::Reg(None, Some(g)));
+                r.extra.push(Ann::Reg(None, Some(g)));
+            }
+        }
+        // a different one: rejected
+        4 => {
+            let other = match first {
+                Some(Ann::Reg(i, Some(g))) => Ann::Reg(i, Some(g + 1)),
+                Some(Ann::Reg(Some(i), None)) => *rng.pick(&[Ann::Reg(Some(i + 1), None), Ann::Reg(Some(i), Some(0))]),
+                _ => Ann::Reg(None, Some(rng.below(4) as u32)),
+            };
+            if first.is_none() {
+                r.extra.push(Ann::Reg(None, Some(5)));
+            }
+            r.extra.push(other);
+        }
+        5 => r.extra.push(Ann::Semantic),
+        6 => {
+            if own_anns(r).first().is_some_and(|x| matches!(x.0, Ann::Reg(Some(_), _))) {
+                r.wrong_class = true;
+            }
+        }
+        // a register on something that is not an object
+        7 => {
+            if !object && !matches!(&r.decl, Decl::Other) {
+                r.extra.push(Ann::Reg(None, Some(rng.below(3) as u32)));
+            }
+        }
+        _ => {}
+    }
+}
+
+/// a further declarator of the declaration whose first declarator is `h`: its own array shape, its own register
+/// annotation (none / space only / index only / both), its own initialiser
+fn gen_joined(rng: &mut Rng, i: usize, h: &Res) -> Option<Res> {
+    let (kind, is_static) = base_of(h)?;
+    let own_space = match rng.below(8) {
+        0..=3 => None,
+        4 => res_set(h),
+        5 => Some(rng.below(3) as u32),
+        _ => Some(rng.range(0, 5) as u32),
     };
+    let sampler = SAMPLERS.contains(&kind);
+    let mut len = if rng.chance(1, 3) || h.bindless { Some(rng.range(1, 4) as u32) } else { None };
+    let ss = sampler && !is_static && !h.bindless && rng.chance(1, 3);
+    if ss {
+        len = None;
+    }
+    let mut r = Res {
+        name: format!("g_r{}", i),
+        decl: if is_static {
+            Decl::StaticObject { set: own_space, kind, len }
+        } else {
+            Decl::Global { set: own_space, ss, kind: Some(kind), len }
+        },
+        how: How::Space,
+        lang_index: if rng.chance(1, 4) { Some(rng.below(12) as u32) } else { None },
+        bindless: h.bindless,
+        ns: h.ns,
+        unsized_arr: false,
+        dim2: false,
+        joined: true,
+        extra: Vec::new(),
+        pre_group: None,
+        wrong_class: false,
+        bad_attr: None,
+        extern_kw: false,
+        groupshared: false,
+        static_ss: false,
+        dup_kw: false,
+    };
+    r.extern_kw = h.extern_kw;
+    r.groupshared = h.groupshared;
+    r.dup_kw = h.dup_kw;
+    if is_static && sampler && rng.chance(1, 20) {
+        r.static_ss = true;
+    }
+    if !ss && !is_static && UNSIZED_OK.contains(&kind) && rng.chance(1, 15) {
+        r.decl = Decl::Global { set: own_space, ss: false, kind: Some(kind), len: None };
+        r.unsized_arr = true;
+    } else if len.is_some() && !kind.contains("Address") && kind != "ConstantBuffer" && rng.chance(1, 12) {
+        r.dim2 = true;
+    }
+    // a static sampler must not carry a binding index (its own or the declaration's vk::binding): now and then it does
+    if ss && !rng.chance(1, 25) {
+        r.lang_index = None;
+        if decl_attrs(h).iter().any(|a| matches!(a, AttrText::VkBinding(..))) {
+            r.decl = Decl::Global { set: own_space, ss: false, kind: Some(kind), len };
+        }
+    }
+    gen_extra(rng, &mut r);
+    Some(r)
+}
+
+fn gen_res(rng: &mut Rng, i: usize, sofar: &[Res]) -> Res {
+    let set = small_group(rng);
     let len = if rng.chance(1, 3) { Some(rng.range(1, 4) as u32) } else { None };
     let mut r = Res {
         name: format!("g_r{}", i),
         decl: Decl::Other,
-        how: *rng.pick(&[How::Attr, How::Attr, How::Attr, How::Space, How::Space, How::VkBinding, How::VkBinding, How::Override]),
+        how: *rng.pick(&[How::Attr, How::Attr, How::Attr, How::Space, How::Space, How::Space, How::VkBinding, How::VkBinding, How::Override]),
         lang_index: if rng.chance(1, 5) { Some(rng.below(12) as u32) } else { None },
         bindless: false,
         ns: rng.chance(1, 10),
         unsized_arr: false,
         dim2: false,
         joined: false,
+        extra: Vec::new(),
+        pre_group: None,
+        wrong_class: false,
+        bad_attr: None,
+        extern_kw: false,
+        groupshared: false,
+        static_ss: false,
+        dup_kw: false,
     };
     // a further declarator of the previous declaration
-    if let Some(p) = prev {
-        if rng.chance(1, 6) {
-            let base = match &p.decl {
-                Decl::Global { set, ss: false, kind: Some(k), .. } if !p.unsized_arr => {
-                    Some(Decl::Global { set: *set, ss: false, kind: Some(*k), len })
-                }
-                Decl::StaticObject { set, kind, .. } => Some(Decl::StaticObject { set: *set, kind: *kind, len }),
-                _ => None,
-            };
-            if let Some(d) = base {
-                let j = Res { decl: d, joined: true, dim2: false, name: r.name.clone(), ..p.clone() };
-                if can_join(p, &j) {
-                    return j;
-                }
-            }
+    if !sofar.is_empty() && rng.chance(1, 4) {
+        let h = &sofar[head_of(sofar, sofar.len() - 1)];
+        if let Some(j) = gen_joined(rng, i, h) {
+            return j;
         }
     }
     match rng.below(24) {
@@ -790,16 +1206,13 @@ fn gen_res(rng: &mut Rng, i: usize, prev: Option<&Res>) -> Res {
             r.lang_index = None;
         }
         5 | 6 => {
-            r.decl = Decl::Global {
-                set,
-                ss: true,
-                kind: Some(if rng.chance(1, 2) { "SamplerState" } else { "SamplerComparisonState" }),
-                len: None,
-            };
-            // a static sampler must not carry a language slot index
-            r.lang_index = None;
-            if r.how == How::VkBinding {
-                r.how = How::Attr;
+            r.decl = Decl::Global { set, ss: true, kind: Some(*rng.pick(SAMPLERS)), len: None };
+            // a static sampler must not carry a language slot index (now and then it does: rejected)
+            if !rng.chance(1, 25) {
+                r.lang_index = None;
+                if r.how == How::VkBinding {
+                    r.how = How::Attr;
+                }
             }
         }
         7 | 8 => {
@@ -812,10 +1225,11 @@ fn gen_res(rng: &mut Rng, i: usize, prev: Option<&Res>) -> Res {
         9..=13 => r.decl = Decl::Global { set, ss: false, kind: Some(*rng.pick(DOUBLED)), len },
         14 => {
             // unsized array: ignored by the allocator, excluded by the property
-            r.decl = Decl::Global { set, ss: false, kind: Some(*rng.pick(&["Texture2D", "StructuredBuffer", "RWTexture2D"])), len: None };
+            r.decl = Decl::Global { set, ss: false, kind: Some(*rng.pick(UNSIZED_OK)), len: None };
             r.unsized_arr = true;
             r.bindless = rng.chance(1, 2);
         }
+        15 => r.decl = Decl::Global { set, ss: false, kind: Some(*rng.pick(SAMPLERS)), len },
         _ => r.decl = Decl::Global { set, ss: false, kind: Some(rng.pick(KINDS).0), len },
     }
     if let Decl::Global { kind: Some(k), len: Some(_), ss: false, .. } = &r.decl {
@@ -843,16 +1257,32 @@ fn gen_res(rng: &mut Rng, i: usize, prev: Option<&Res>) -> Res {
             r.lang_index = Some(rng.below(12) as u32);
         }
     }
+    if !matches!(&r.decl, Decl::Other) && rng.chance(1, 12) {
+        r.pre_group = Some(rng.below(5) as u32);
+    }
+    // storage class spellings; now and then something the type checker must reject
+    match &r.decl {
+        Decl::Global { kind: Some(_), .. } => {
+            r.extern_kw = rng.chance(1, 8);
+            r.dup_kw = r.extern_kw && rng.chance(1, 4);
+        }
+        Decl::StaticObject { kind, .. } => {
+            r.groupshared = rng.chance(1, 3);
+            r.dup_kw = rng.chance(1, 6);
+            r.extern_kw = rng.chance(1, 60);
+            r.static_ss = *kind == "SamplerState" && rng.chance(1, 20);
+        }
+        Decl::CBuffer(_) => r.bindless = rng.chance(1, 60),
+        _ => {}
+    }
+    if !matches!(&r.decl, Decl::Other) && rng.chance(1, 90) {
+        r.bad_attr = Some(rng.below(BAD_ATTRS.len() as u64) as u32);
+    }
+    gen_extra(rng, &mut r);
     r
 }
 
-pub fn gen_prog(rng: &mut Rng, min_pipes: usize) -> Prog {
-    let nres = rng.range(0, 9) as usize;
-    let mut res: Vec<Res> = Vec::new();
-    for i in 0..nres {
-        let r = gen_res(rng, i, res.last());
-        res.push(r);
-    }
+fn gen_pipes(rng: &mut Rng, nres: usize, min_pipes: usize) -> Vec<Pipe> {
     let np = std::cmp::max(min_pipes, rng.below(5) as usize);
     let mut pipes = Vec::new();
     // default groups: mostly pairwise different, so that a layout leaking from one pipeline to the next shows
@@ -877,7 +1307,103 @@ pub fn gen_prog(rng: &mut Rng, min_pipes: usize) -> Prog {
         }
         pipes.push(pipe);
     }
+    pipes
+}
+
+pub fn gen_prog(rng: &mut Rng, min_pipes: usize) -> Prog {
+    let nres = rng.range(0, 9) as usize;
+    let mut res: Vec<Res> = Vec::new();
+    for i in 0..nres {
+        let r = gen_res(rng, i, &res);
+        res.push(r);
+    }
+    normalise(&mut res);
+    let pipes = gen_pipes(rng, nres, min_pipes);
     Prog { res, pipes }
+}
+
+/// The declarator matrix: one declaration with two or three declarators, every way the FIRST declarator / the
+/// declaration can spell a group x every way a LATER declarator can (nothing, a register space, a register index,
+/// both), the groups equal to / different from the default groups of the pipelines; a single resource before and
+/// after it so that the ranges of the groups involved are shared with other declarations.
+pub fn matrix_progs(rng: &mut Rng) -> Vec<Prog> {
+    let mut v = Vec::new();
+    let plain: Vec<&'static str> = KINDS.iter().map(|k| k.0).filter(|k| *k != "ConstantBuffer").collect();
+    for head_form in 0..8 {
+        for later_form in 0..4 {
+            let kind = if rng.chance(1, 4) { *rng.pick(SAMPLERS) } else { *rng.pick(&plain) };
+            let d0 = rng.below(3) as u32;
+            let d1 = (d0 + 1 + rng.below(2) as u32) % 4;
+            let g = *rng.pick(&[d0, d1, (d0 + 2) % 4, 3]);
+            let k = *rng.pick(&[d0, d1, g, (g + 1) % 4]);
+            let blank = |name: &str, decl: Decl| Res {
+                name: name.to_string(),
+                decl,
+                how: How::Attr,
+                lang_index: None,
+                bindless: false,
+                ns: false,
+                unsized_arr: false,
+                dim2: false,
+                joined: false,
+                extra: Vec::new(),
+                pre_group: None,
+                wrong_class: false,
+                bad_attr: None,
+                extern_kw: false,
+                groupshared: false,
+                static_ss: false,
+                dup_kw: false,
+            };
+            let alen = |rng: &mut Rng| if rng.chance(1, 3) { Some(rng.range(1, 3) as u32) } else { None };
+            let mut head = blank("g_a", Decl::Global { set: None, ss: false, kind: Some(kind), len: alen(rng) });
+            let idx = rng.below(8) as u32;
+            let (set, how, li) = match head_form {
+                0 => (None, How::Attr, None),
+                1 => (Some(g), How::Attr, None),
+                2 => (Some(g), How::Space, None),
+                3 => (None, How::Space, Some(idx)),
+                4 => (Some(g), How::Space, Some(idx)),
+                5 => (None, How::VkBinding, Some(idx)),
+                6 => (Some(g), How::VkBinding, Some(idx)),
+                _ => (Some(g), How::Override, None),
+            };
+            if let Decl::Global { set: s, .. } = &mut head.decl {
+                *s = set;
+            }
+            head.how = how;
+            head.lang_index = li;
+            let later = |rng: &mut Rng, name: &str, form: u64| {
+                let (set, li) = match form {
+                    0 => (None, None),
+                    1 => (Some(k), None),
+                    2 => (None, Some(rng.below(8) as u32)),
+                    _ => (Some(k), Some(rng.below(8) as u32)),
+                };
+                let mut r = blank(name, Decl::Global { set, ss: false, kind: Some(kind), len: alen(rng) });
+                r.how = How::Space;
+                r.lang_index = li;
+                r.joined = true;
+                r
+            };
+            let before = blank("g_p", Decl::Global { set: *rng.pick(&[None, Some(g), Some(k)]), ss: false, kind: Some(*rng.pick(&plain)), len: alen(rng) });
+            let after = blank("g_q", Decl::Global { set: *rng.pick(&[None, Some(g), Some(k)]), ss: false, kind: Some(*rng.pick(&plain)), len: alen(rng) });
+            let mut res = vec![before, head, later(rng, "g_b", later_form)];
+            if rng.chance(1, 2) {
+                let form = rng.below(4);
+                res.push(later(rng, "g_c", form));
+            }
+            res.push(after);
+            normalise(&mut res);
+            let n = res.len();
+            let pipes = vec![
+                Pipe { name: "P0".into(), dflt: Some(d0), graphics: false, uses: (0..n).collect(), share: None },
+                Pipe { name: "P1".into(), dflt: if d1 == 0 && rng.chance(1, 2) { None } else { Some(d1) }, graphics: rng.chance(1, 3), uses: (0..n).filter(|_| rng.chance(1, 2)).collect(), share: None },
+            ];
+            v.push(Prog { res, pipes });
+        }
+    }
+    v
 }
 
 /// all targets x {whole file, each pipeline by name, an unknown name now and then, no-pipeline mode}
@@ -901,6 +1427,11 @@ pub fn run_prog(p: &Prog, rng: &mut Rng, out: &mut Out, hist: &mut Hist) {
             Decl::Global { .. } => "e2e:decl:object",
         });
         if r.joined { hist.add("e2e:flag:joined-declarator"); }
+        if r.pre_group.is_some() { hist.add("e2e:flag:two-group-attributes"); }
+        if r.bad_attr.is_some() { hist.add("e2e:flag:ill-formed-attribute"); }
+        if r.extern_kw && !r.joined { hist.add("e2e:flag:extern-keyword"); }
+        if r.groupshared && !r.joined { hist.add("e2e:flag:groupshared"); }
+        if r.extra.len() > 0 { hist.add("e2e:flag:repeated-annotation"); }
         if r.ns { hist.add("e2e:flag:namespace"); }
         if r.bindless { hist.add("e2e:flag:bindless"); }
         if r.lang_index.is_some() { hist.add("e2e:flag:explicit-register-index"); }
@@ -910,6 +1441,25 @@ pub fn run_prog(p: &Prog, rng: &mut Rng, out: &mut Out, hist: &mut Hist) {
             How::Override => hist.add("e2e:how:attribute-overrides-register-space"),
             How::Attr => {}
         }
+    }
+    for i in 0..p.res.len() {
+        if !p.res[i].joined {
+            continue;
+        }
+        // what each declarator of a declaration with several declarators says about its group
+        let h = head_of(&p.res, i);
+        let attr = decl_attrs(&p.res[h]).iter().any(|a| matches!(a, AttrText::BindGroup(_) | AttrText::VkBinding(_, Some(_))));
+        let space = |k: usize| own_anns(&p.res[k]).iter().any(|a| matches!(a.0, Ann::Reg(_, Some(_))));
+        let any = |k: usize| !own_anns(&p.res[k]).is_empty();
+        hist.add(&format!(
+            "e2e:declarators:{}earlier-{}/later-{}",
+            if attr { "attribute-group+" } else { "" },
+            if (h..i).any(space) { "register-space" } else if (h..i).any(any) { "register-index" } else { "plain" },
+            if space(i) { "register-space" } else if any(i) { "register-index" } else { "plain" }
+        ));
+    }
+    if invalid_annotation(&p.res) {
+        hist.add("e2e:program-with-an-ill-formed-annotation");
     }
     let unknown = rng.chance(1, 6);
     for tgt in ALL_TARGETS {
